@@ -13,7 +13,6 @@ import (
 	"encoding/json"
 	"encoding/pem"
 	"fmt"
-	"sort"
 	"strings"
 	"time"
 
@@ -301,13 +300,4 @@ func (tb *c16TokenBox) derive(e *c16Env, t c16Tok, role string, ns []string) (c1
 		return c16Cred{Token: parts[0] + "." + ap[1] + "." + parts[2]}, nil
 	}
 	return c16Cred{}, fmt.Errorf("unknown token kind %q", t.Kind)
-}
-
-var c16TokKinds = []string{"valid", "root", "root_ws", "root_mut", "empty", "bearer_only", "garbage", "flip", "b64", "trunc",
-	"sig_empty", "extra_seg", "swap", "alg_none", "hs256_pub", "wrong_key", "es384", "expired", "nbf_future", "revoked"}
-
-func c16SortedCopy(ns []string) []string {
-	c := append([]string{}, ns...)
-	sort.Strings(c)
-	return c
 }
